@@ -306,7 +306,9 @@ def judgeLine (s0 : JState) (line : String) : JState :=
               let s := useLive s "environment" line (jOid env)
               -- a destructed object must not have been linked into the room
               let s := if isDead s a && (jOid env).isSome then s.flag s!"destructed-moved o{a}: {line}" else s
-              if env == "?" then s else { s with envOf := (a, jOid env) :: s.envOf }
+              -- `?`: the executing object was destructed and could not name the room; relocations announced while
+              -- the string move was running are older than the move itself: the environment is unknown again
+              if env == "?" then { s with envOf := (a, some unkEnv) :: s.envOf } else { s with envOf := (a, jOid env) :: s.envOf }
             else s.flag s!"frame-mismatch {line}"
           | _ => s.flag s!"frame-mismatch {line}"
         else s
@@ -348,10 +350,15 @@ def judgeLine (s0 : JState) (line : String) : JState :=
       let s := useLive (useLive (useLive s "reference-read" line (jOid v)) "reference-read" line (jOid va)) "reference-read" line (jOid vm)
       if v == va && v == vm then s else s.flag s!"reference-reads-differ {line}"
     | ["r", "aa", a, _v, res] => if res == "ok" then useLive (stepEvent s) "add_action" line (jOid a) else s
-    | ["r", "cmd", _a, _v, _res] => stepEvent s   -- the issuer may have been destructed by the action it triggered
-    | ["r", "ld", _n, v, k] =>
+    | ["r", "cmd", _a, _v, _res] => stepEvent s
+    | ["r", "ra", a, _v, res] => if res == "!gone" then s else useLive (stepEvent s) "remove_action" line (jOid a)   -- the issuer may have been destructed by the action it triggered
+    | ["r", "ld", _n, v, k, lv] =>
       let s := stepEvent s
       let s := useLive s "loaded" line (jOid v)
+      let s := useLive s "loaded" line (jOid lv)
+      -- the object load_object() returns is the one find_object() finds under that name
+      let s := if v != "?" && lv != "?" && (jOid lv).isSome && jOid lv != jOid v then
+                 s.flag s!"load-find-disagree load_object returned o{(jOid lv).getD 0}, find_object finds {v}: {line}" else s
       if v == "?" then s   -- the executing object was destructed meanwhile and could not name the result
       else if (k == "1") != (jOid v).isSome then s.flag s!"found-destructed load returned an object that is not live: {line}" else s
     | ["r", "cl", _n, v] => useLive (stepEvent s) "cloned" line (jOid v)
